@@ -116,11 +116,11 @@ func Check() *core.Check {
 			if tier == "thorough" {
 				return len(catalogue) + 400000
 			}
-			return len(catalogue) + 30000
+			return len(catalogue) + 20000
 		},
 		MinConclusive: func(tier string) int { return 2000 },
 		NumPinned:     len(pinned),
-		CaseTimeoutS:  60,
+		CaseTimeoutS:  180,
 		Run:           run,
 	}
 }
@@ -428,6 +428,9 @@ func execDiff(d *diffCase, st *core.Stats) outcome {
 			if resD.fuel {
 				out.inconcl = "fuel"
 				return out
+			}
+			if d.mode == "subclass" && resD.protoIntact {
+				return fail("subclass-prototype", "construct", "new Sub(...) (class Sub extends RegExp) returned an object whose [[Prototype]] is %RegExp.prototype% (22.2.4.1 step 7: RegExpAlloc(newTarget))", "deopt:subclass/"+p.name)
 			}
 			flipped := !resD.standard || !resD.protoIntact
 			if st != nil {
